@@ -181,10 +181,21 @@ pub enum Order {
     TargetClose,
     /// nobody listens on the target port
     Refuse,
+    /// the target writes everything and half-closes; the client (which has written its payload)
+    /// sees the payload and the EOF and KEEPS STREAMING filler bytes; the target reads the
+    /// client's payload and some filler, then closes its connection completely. The local
+    /// connection must then be closed or reset (the client's writes must start to fail).
+    TargetHalfThenClose,
+    /// mirror image: the client half-closes, the target keeps streaming, the client closes
+    ClientHalfThenClose,
 }
 
 impl Order {
+    /// the close orders of the complete product
     pub const ALL: [Order; 5] = [Order::ClientHalf, Order::TargetHalf, Order::ClientClose, Order::TargetClose, Order::Refuse];
+    /// the close orders of the "close after half-close" sub-matrix (a restricted set of payload
+    /// lengths, chunkings and connection counts, see `c01.rs::matrix`)
+    pub const AFTER_HALF: [Order; 2] = [Order::TargetHalfThenClose, Order::ClientHalfThenClose];
     pub fn name(self) -> &'static str {
         match self {
             Order::ClientHalf => "client-half-close-first",
@@ -192,11 +203,39 @@ impl Order {
             Order::ClientClose => "client-closes-both",
             Order::TargetClose => "target-closes-both",
             Order::Refuse => "target-refuses",
+            Order::TargetHalfThenClose => "target-half-close-then-close",
+            Order::ClientHalfThenClose => "client-half-close-then-close",
         }
     }
     pub fn parse(s: &str) -> Option<Self> {
-        Self::ALL.into_iter().find(|e| e.name() == s)
+        Self::ALL.into_iter().chain(Self::AFTER_HALF).find(|e| e.name() == s)
     }
+    /// one end half-closes, the other keeps streaming, the first end closes completely
+    pub fn after_half(self) -> bool {
+        matches!(self, Order::TargetHalfThenClose | Order::ClientHalfThenClose)
+    }
+}
+
+/// "close after half-close" orders: the end that half-closed closes completely once it has read
+/// the other end's payload and this many filler bytes ...
+pub const AFTER_HALF_FILLER_READ: usize = 16 * 1024;
+/// ... or once this much time has passed since it had both half-closed and read the whole payload
+/// (whichever comes first; neither is judged, they only decide WHEN the close happens)
+pub const AFTER_HALF_LINGER: Duration = Duration::from_millis(300);
+/// the streaming end writes filler in chunks of this size ...
+pub const FILLER_CHUNK: usize = 4096;
+/// ... with this pause between chunks (about 1.3 MB/s at most: a scenario that hangs until its
+/// deadline moves tens of megabytes, not gigabytes)
+pub const FILLER_PAUSE: Duration = Duration::from_millis(3);
+/// period of the filler pattern
+const FILLER_PERIOD: usize = 65536;
+
+/// Filler of connection `conn` in direction `dir` (0 = client->target): the bytes from offset
+/// `from` (inclusive) to `to` (exclusive) of an endless stream, periodic with `FILLER_PERIOD`,
+/// generated like the payloads but from seeds no payload uses.
+pub fn filler(conn: usize, dir: u8, from: usize, to: usize) -> Vec<u8> {
+    let block = payload(FILLER_PERIOD, conn, dir + 2);
+    (from..to).map(|k| block[k % FILLER_PERIOD]).collect()
 }
 
 #[derive(Clone, Debug, PartialEq, Eq, Hash)]
@@ -304,6 +343,14 @@ pub struct TcpStats {
     pub refuse_end_reset: u64,
     pub refuse_refused_reply: u64,
     pub refuse_closed_before_reply: u64,
+    /// "close after half-close" orders: connections whose still-streaming end was disconnected
+    /// (its writes began to fail) after the other end, which had half-closed first, closed
+    pub after_halfclose_closed: u64,
+    /// ... of which: the closing end had read filler bytes (sent after the streaming end saw the
+    /// half-close) before it closed: the reverse direction demonstrably outlived the half-close
+    pub after_halfclose_filler_read: u64,
+    /// ... how the streaming end's writes ended, by `std::io::ErrorKind` (recorded, not judged)
+    pub after_halfclose_end_kinds: std::collections::BTreeMap<String, u64>,
 }
 
 pub struct TcpOutcome {
@@ -331,6 +378,11 @@ enum Role {
     CloseResponder,
     /// write (errors allowed), read to the end
     RefuseProbe,
+    /// write all, shutdown(write), read `expect` bytes and then up to `AFTER_HALF_FILLER_READ`
+    /// more (for at most `AFTER_HALF_LINGER`), close both directions
+    HalfThenCloser,
+    /// write all, read to the end, then write filler for as long as writing succeeds
+    Streamer,
 }
 
 #[derive(Default, Debug)]
@@ -346,6 +398,10 @@ struct Side {
     /// length of `rx` at the moment the second half was started (HalfResponder)
     second_half_at: Option<usize>,
     finished: bool,
+    /// Streamer: the whole payload was written (what follows is filler)
+    payload_written: bool,
+    /// Streamer: filler bytes whose write succeeded
+    filler_tx: usize,
 }
 
 type Shared = Arc<Mutex<Side>>;
@@ -402,13 +458,43 @@ async fn read_into<R: AsyncRead + Unpin>(r: &mut R, st: &Shared, limit: Option<u
     }
 }
 
-async fn run_side(io: BoxIo, role: Role, data: Vec<u8>, expect: usize, chunk: Chunk, st: Shared) {
+/// HalfThenCloser: read the other end's payload (`expect` bytes, however long that takes), then
+/// filler until `AFTER_HALF_FILLER_READ` bytes of it have been read or `AFTER_HALF_LINGER` has
+/// passed since this end had both read the payload and finished its own half-close.
+async fn read_then_linger<R: AsyncRead + Unpin>(r: &mut R, st: &Shared, expect: usize) -> String {
+    let mut buf = vec![0u8; 65536];
+    let stop_at = expect + AFTER_HALF_FILLER_READ;
+    let mut since: Option<Instant> = None;
+    loop {
+        let (have, half_closed) = {
+            let g = lock(st);
+            (g.rx.len(), g.tx_done || g.tx_err.is_some())
+        };
+        if have >= stop_at {
+            return "stopped".into();
+        }
+        if have >= expect && half_closed && since.get_or_insert_with(Instant::now).elapsed() >= AFTER_HALF_LINGER {
+            return "stopped".into();
+        }
+        let want = buf.len().min(stop_at - have);
+        // (`read` is cancel-safe: a read that is given up has consumed nothing)
+        match tokio::time::timeout(Duration::from_millis(20), r.read(&mut buf[..want])).await {
+            Err(_) => {}
+            Ok(Ok(0)) => return "eof".into(),
+            Ok(Ok(n)) => lock(st).rx.extend_from_slice(&buf[..n]),
+            Ok(Err(e)) => return format!("err:{:?}", e.kind()),
+        }
+    }
+}
+
+#[allow(clippy::too_many_arguments)]
+async fn run_side(io: BoxIo, role: Role, data: Vec<u8>, expect: usize, chunk: Chunk, st: Shared, conn: usize, dir: u8) {
     let (mut rd, mut wr) = tokio::io::split(io);
     let (eof_tx, eof_rx) = oneshot::channel::<()>();
     let st_r = st.clone();
     let reader = async move {
         let limit = if role == Role::Closer { Some(expect) } else { None };
-        let end = read_into(&mut rd, &st_r, limit).await;
+        let end = if role == Role::HalfThenCloser { read_then_linger(&mut rd, &st_r, expect).await } else { read_into(&mut rd, &st_r, limit).await };
         lock(&st_r).rx_end = Some(end);
         let _ = eof_tx.send(());
         rd
@@ -432,9 +518,31 @@ async fn run_side(io: BoxIo, role: Role, data: Vec<u8>, expect: usize, chunk: Ch
                     }
                     wr.shutdown().await?;
                 }
-                Role::HalfCloser => {
+                Role::HalfCloser | Role::HalfThenCloser => {
                     write_chunked(&mut wr, &data, chunk, &st_w).await?;
                     wr.shutdown().await?;
+                }
+                Role::Streamer => {
+                    write_chunked(&mut wr, &data, chunk, &st_w).await?;
+                    lock(&st_w).payload_written = true;
+                    // the other end's payload and its half-close (or whatever ended the reading)
+                    let _ = eof_rx.await;
+                    {
+                        let mut g = lock(&st_w);
+                        g.second_half_at = Some(g.rx.len());
+                    }
+                    // keep sending until the connection is taken away (the only way out)
+                    let block = filler(conn, dir, 0, FILLER_PERIOD);
+                    let mut at = 0usize;
+                    loop {
+                        let from = at % FILLER_PERIOD;
+                        let to = (from + FILLER_CHUNK).min(FILLER_PERIOD);
+                        wr.write_all(&block[from..to]).await?;
+                        wr.flush().await?;
+                        at += to - from;
+                        lock(&st_w).filler_tx = at;
+                        tokio::time::sleep(FILLER_PAUSE).await;
+                    }
                 }
                 Role::Closer | Role::CloseResponder | Role::RefuseProbe => {
                     write_chunked(&mut wr, &data, chunk, &st_w).await?;
@@ -478,6 +586,9 @@ pub enum Fault {
     Faithful,
     FlipFirstByte,
     CloseBothOnHalfClose,
+    /// relays faithfully, half-closes included, but when the target connection is gone it goes
+    /// on reading (and discarding) what the local connection sends instead of closing it
+    SwallowWhenTargetGone,
 }
 
 pub enum Mode<'a> {
@@ -515,6 +626,28 @@ async fn control_relay(l: TcpListener, target: SocketAddr, fault: Fault) {
                             }
                         }
                         let _ = bw.shutdown().await;
+                    };
+                    let down = async {
+                        let _ = tokio::io::copy(&mut br, &mut aw).await;
+                        let _ = aw.shutdown().await;
+                    };
+                    tokio::join!(up, down);
+                }
+                Fault::SwallowWhenTargetGone => {
+                    let (mut ar, mut aw) = a.split();
+                    let (mut br, mut bw) = b.split();
+                    let up = async {
+                        let mut gone = false;
+                        let mut buf = vec![0u8; 8192];
+                        loop {
+                            match ar.read(&mut buf).await {
+                                Ok(0) | Err(_) => break,
+                                Ok(n) => gone = gone || bw.write_all(&buf[..n]).await.is_err(),
+                            }
+                        }
+                        if !gone {
+                            let _ = bw.shutdown().await;
+                        }
                     };
                     let down = async {
                         let _ = tokio::io::copy(&mut br, &mut aw).await;
@@ -583,8 +716,10 @@ async fn client_conn(i: usize, case: TcpCase, ep: Arc<EntryPoint>, target: Socke
             Order::ClientClose => Role::Closer,
             Order::TargetClose => Role::CloseResponder,
             Order::Refuse => Role::RefuseProbe,
+            Order::TargetHalfThenClose => Role::Streamer,
+            Order::ClientHalfThenClose => Role::HalfThenCloser,
         };
-        run_side(io, role, payload(case.c2t, i, 0), case.t2c, case.chunk, st.clone()).await;
+        run_side(io, role, payload(case.c2t, i, 0), case.t2c, case.chunk, st.clone(), i, 0).await;
     }
     let _ = done.send(());
 }
@@ -813,13 +948,15 @@ pub async fn run_tcp(mode: &Mode<'_>, case: &TcpCase, deadline_s: u64, uniq: u64
                     Order::TargetHalf => Role::HalfCloser,
                     Order::ClientClose => Role::CloseResponder,
                     Order::TargetClose | Order::Refuse => Role::Closer,
+                    Order::TargetHalfThenClose => Role::HalfThenCloser,
+                    Order::ClientHalfThenClose => Role::Streamer,
                 };
                 let st = tst2[j].clone();
                 let done3 = done2.clone();
                 let data = payload(case2.t2c, j, 1);
                 let (expect, chunk) = (case2.c2t, case2.chunk);
                 tokio::spawn(async move {
-                    run_side(Box::new(s), role, data, expect, chunk, st).await;
+                    run_side(Box::new(s), role, data, expect, chunk, st, j, 1).await;
                     let _ = done3.send(());
                 });
             }
@@ -1025,8 +1162,12 @@ pub async fn run_tcp(mode: &Mode<'_>, case: &TcpCase, deadline_s: u64, uniq: u64
         }
     }
 
-    let mut obs_c: Vec<Value> = cs.iter().map(|c| json!({"rx_len": c.rx.len(), "rx_fnv": format!("{:016x}", fnv(&c.rx)), "granted": c.shake == Some(Shake::Granted)})).collect();
-    let mut obs_t: Vec<String> = ts.iter().map(|c| format!("{}:{:016x}", c.rx.len(), fnv(&c.rx))).collect();
+    // "close after half-close" orders: how much filler the closing end read before it closed depends
+    // on the schedule; only the payload part of what it received belongs to the deterministic summary
+    let cut_c = if case.order == Order::ClientHalfThenClose { case.t2c } else { usize::MAX };
+    let cut_t = if case.order == Order::TargetHalfThenClose { case.c2t } else { usize::MAX };
+    let mut obs_c: Vec<Value> = cs.iter().map(|c| (c, &c.rx[..c.rx.len().min(cut_c)])).map(|(c, rx)| json!({"rx_len": rx.len(), "rx_fnv": format!("{:016x}", fnv(rx)), "granted": c.shake == Some(Shake::Granted)})).collect();
+    let mut obs_t: Vec<String> = ts.iter().map(|c| &c.rx[..c.rx.len().min(cut_t)]).map(|rx| format!("{}:{:016x}", rx.len(), fnv(rx))).collect();
     obs_t.sort();
     if refuse {
         // how the refusal is signalled may differ between runs (reply vs close); only the verdict counts
@@ -1093,6 +1234,9 @@ fn permutations(n: usize) -> Vec<Vec<usize>> {
 }
 
 fn evaluate_data(case: &TcpCase, cs: &[Side], ts: &[Side], deadline_s: u64, stats: &mut TcpStats, push: &mut impl FnMut(String, String, bool)) {
+    if case.order.after_half() {
+        return evaluate_after_half(case, cs, ts, deadline_s, stats, push);
+    }
     let n = case.conc;
     let fam_s = case.family();
     let fam = fam_s.as_str();
@@ -1157,6 +1301,7 @@ fn evaluate_data(case: &TcpCase, cs: &[Side], ts: &[Side], deadline_s: u64, stat
                     None
                 }
             }
+            Order::TargetHalfThenClose | Order::ClientHalfThenClose => unreachable!("judged by evaluate_after_half"),
             Order::TargetClose | Order::Refuse => {
                 if !c2t_complete && !t_ended {
                     Some((format!("tcp.hang.data-stalled.c2t.{fam}"), format!("the client wrote {c_tx}+ of {} bytes but they did not all reach the target", case.c2t)))
@@ -1288,6 +1433,160 @@ fn evaluate_data(case: &TcpCase, cs: &[Side], ts: &[Side], deadline_s: u64, stat
                     stats.end_reset += 1;
                 }
             }
+        }
+        Order::TargetHalfThenClose | Order::ClientHalfThenClose => unreachable!("judged by evaluate_after_half"),
+    }
+}
+
+/// The two "close after half-close" orders. One end (the closer: the target for
+/// `TargetHalfThenClose`, the client for `ClientHalfThenClose`) writes its payload and half-closes;
+/// the other end (the streamer) has written its payload, sees the closer's payload and EOF and
+/// keeps sending filler; the closer reads the streamer's payload and some filler, then closes
+/// completely. Judged:
+///  * the streamer received exactly the closer's payload, then a true EOF;
+///  * the closer received (streamer's payload ++ filler) up to some point at or after the end of
+///    the payload, and its connection was not ended by anybody else before it closed it itself;
+///  * after the close the streamer's connection is closed or reset, i.e. its writes begin to fail
+///    (HOW is recorded, not judged) before the scenario deadline. No other timing is judged.
+fn evaluate_after_half(case: &TcpCase, cs: &[Side], ts: &[Side], deadline_s: u64, stats: &mut TcpStats, push: &mut impl FnMut(String, String, bool)) {
+    let n = case.conc;
+    let fam_s = case.family();
+    let fam = fam_s.as_str();
+    let ord = case.order.name();
+    let target_closes = case.order == Order::TargetHalfThenClose;
+    // st: the streaming ends, cl: the ends that half-close and then close
+    let (st, cl) = if target_closes { (cs, ts) } else { (ts, cs) };
+    // hd: direction of the closer's payload (and of its half-close and close), sd: direction of the streamer's bytes
+    let (hd, sd) = if target_closes { ("t2c", "c2t") } else { ("c2t", "t2c") };
+    let (closer, streamer, closer_conn, streamer_conn) = if target_closes { ("target", "client", "target connection", "local connection") } else { ("client", "target", "local connection", "target connection") };
+    let (h_len, s_len) = if target_closes { (case.t2c, case.c2t) } else { (case.c2t, case.t2c) };
+    let h_dir: u8 = u8::from(target_closes);
+    let s_dir: u8 = 1 - h_dir;
+    let h_pay: Vec<Vec<u8>> = (0..n).map(|k| payload(h_len, k, h_dir)).collect();
+    let s_pay: Vec<Vec<u8>> = (0..n).map(|k| payload(s_len, k, s_dir)).collect();
+    // what a closer that received `len` bytes from streamer `k` must have received
+    let s_want = |k: usize, len: usize| -> Vec<u8> {
+        let mut w = s_pay[k].clone();
+        if len > s_len {
+            w.extend_from_slice(&filler(k, s_dir, 0, len - s_len));
+        }
+        w
+    };
+    let end = |x: &Side| x.rx_end.clone().unwrap_or_else(|| "-".into());
+    let progress = format!(
+        "{streamer} side (keeps sending): rx {:?} end {:?} payload tx {:?} filler tx {:?} write error {:?}; {closer} side (half-closes, then closes): rx {:?} (of which filler {:?}) end {:?} tx {:?} closed {:?}",
+        st.iter().map(|x| x.rx.len()).collect::<Vec<_>>(),
+        st.iter().map(end).collect::<Vec<_>>(),
+        st.iter().map(|x| x.tx_bytes).collect::<Vec<_>>(),
+        st.iter().map(|x| x.filler_tx).collect::<Vec<_>>(),
+        st.iter().map(|x| x.tx_err.clone().unwrap_or_else(|| "-".into())).collect::<Vec<_>>(),
+        cl.iter().map(|x| x.rx.len()).collect::<Vec<_>>(),
+        cl.iter().map(|x| x.rx.len().saturating_sub(s_len)).collect::<Vec<_>>(),
+        cl.iter().map(end).collect::<Vec<_>>(),
+        cl.iter().map(|x| x.tx_bytes).collect::<Vec<_>>(),
+        cl.iter().map(|x| x.finished).collect::<Vec<_>>()
+    );
+
+    // ---- liveness: the milestones of the choreography, in causal order
+    if !(st.iter().all(|x| x.finished) && cl.iter().all(|x| x.finished)) {
+        let st_has_payload = st.iter().all(|x| x.rx.len() >= h_len);
+        let st_ended = st.iter().all(|x| x.rx_end.is_some());
+        let cl_has_payload = cl.iter().all(|x| x.rx.len() >= s_len);
+        let cl_closed = cl.iter().all(|x| x.finished);
+        let cl_tx = cl.iter().map(|x| x.tx_bytes).min().unwrap_or(0);
+        let st_tx = st.iter().map(|x| x.tx_bytes).min().unwrap_or(0);
+        let (k, d) = if !st_has_payload && !st_ended {
+            (format!("tcp.hang.data-stalled.{hd}.{fam}"), format!("the {closer} wrote {cl_tx}+ of {h_len} bytes but they did not all reach the {streamer}"))
+        } else if !st_ended {
+            (format!("tcp.hang.halfclose-not-propagated.{hd}.{fam}"), format!("the {closer} half-closed after its payload, the {streamer} received the payload but never saw EOF"))
+        } else if !cl_closed && !cl_has_payload {
+            (format!("tcp.hang.data-stalled.{sd}.{fam}.after-halfclose"), format!("after the {closer}'s half-close the {streamer} wrote {st_tx}+ of {s_len} payload bytes but they did not all reach the {closer}"))
+        } else if !cl_closed {
+            (format!("tcp.hang.write-blocked.{fam}"), format!("the {closer} has everything it waits for but its writer is still blocked"))
+        } else {
+            (
+                format!("tcp.hang.close-not-propagated.{hd}.{fam}.after-halfclose"),
+                format!("the {closer} half-closed after its payload, the {streamer} kept sending, then the {closer} closed its connection completely; the {streamer_conn} was left hanging (the {streamer}'s writes kept succeeding or blocked, none failed): it was neither closed nor reset"),
+            )
+        };
+        push(k, format!("{d} within {deadline_s} s; {progress}"), true);
+        return;
+    }
+
+    // ---- write errors: the closer must have none; the streamer none before its payload is out
+    // (the one that ends its filler is the required outcome)
+    for (j, x) in cl.iter().enumerate() {
+        if let Some(e) = &x.tx_err {
+            push(format!("tcp.write-error.{closer}.{fam}.{ord}"), format!("{closer_conn} {j}: writing failed with {e} after {} of {h_len} bytes; {progress}", x.tx_bytes), false);
+        }
+    }
+    for (i, x) in st.iter().enumerate() {
+        match &x.tx_err {
+            Some(e) if !x.payload_written => push(format!("tcp.write-error.{streamer}.{fam}.{ord}"), format!("{streamer_conn} {i}: writing failed with {e} after {} of {s_len} payload bytes, while the {closer} was still reading; {progress}", x.tx_bytes), false),
+            Some(e) => {
+                stats.after_halfclose_closed += 1;
+                *stats.after_halfclose_end_kinds.entry(e.clone()).or_insert(0) += 1;
+            }
+            // (cannot happen: the streamer's writer ends only with an error)
+            None => push("machinery".into(), format!("{streamer_conn} {i}: the streaming end finished without a write error; {progress}"), false),
+        }
+    }
+
+    // ---- data, per connection, with the pairing streamer <-> closer inferred
+    let cl_ok = |x: &Side, k: usize| x.rx.len() >= s_len && x.rx == s_want(k, x.rx.len());
+    let ok_perm = permutations(n).into_iter().find(|p| (0..n).all(|i| st[i].rx == h_pay[p[i]] && cl_ok(&cl[p[i]], i)));
+    if ok_perm.is_some() {
+        stats.conns_verified += n as u64;
+        stats.bytes_verified += (n * h_len) as u64 + cl.iter().map(|x| x.rx.len() as u64).sum::<u64>();
+    } else {
+        let mut any = false;
+        for (i, x) in st.iter().enumerate() {
+            let (j, c, d) = best_match(&x.rx, &h_pay);
+            if c != "equal" {
+                any = true;
+                push(format!("tcp.data.{hd}.{c}.{fam}"), format!("{streamer_conn} {i} vs the payload of {closer_conn} {j}: {d}; stream ended with {:?}; {progress}", x.rx_end), false);
+            }
+        }
+        for (j, x) in cl.iter().enumerate() {
+            let cands: Vec<Vec<u8>> = (0..n).map(|k| s_want(k, x.rx.len())).collect();
+            let (i, c, d) = best_match(&x.rx, &cands);
+            if c != "equal" {
+                any = true;
+                // the payload is intact, the difference is in the bytes sent after the half-close was seen
+                let after = x.rx.len() > s_len && x.rx[..s_len] == s_pay[i][..];
+                let (sfx, extra) = if after { (".after-halfclose", format!(" (the {s_len} payload bytes are intact; the difference is in the filler the {streamer} sent after it saw the {closer}'s half-close)")) } else { ("", String::new()) };
+                push(format!("tcp.data.{sd}.{c}.{fam}{sfx}"), format!("{closer_conn} {j} vs payload ++ filler of {streamer_conn} {i}: {d}{extra}; reading ended with {:?}; {progress}", x.rx_end), false);
+            }
+        }
+        if !any {
+            push(
+                format!("tcp.data.crossed.{fam}"),
+                "every stream is intact but the two directions of the local connections are not paired consistently (bytes of one local connection went to a target connection whose bytes went to another local connection)".to_string(),
+                false,
+            );
+        }
+    }
+
+    // ---- close choreography
+    for (i, x) in st.iter().enumerate() {
+        if x.rx_end.as_deref() != Some("eof") {
+            push(format!("tcp.halfclose.not-eof.{hd}.{fam}"), format!("{streamer_conn} {i}: the {closer}'s half-close arrived as {:?} instead of EOF; {progress}", x.rx_end), false);
+        }
+    }
+    for (j, x) in cl.iter().enumerate() {
+        match x.rx_end.as_deref() {
+            // it stopped reading by itself and closed
+            Some("stopped") => {
+                if x.rx.len() > s_len {
+                    stats.after_halfclose_filler_read += 1;
+                }
+            }
+            // the streamer never half-closes and never closes: nobody but the closer may end this connection
+            other => push(
+                format!("tcp.data.{sd}.truncated.{fam}.after-halfclose"),
+                format!("{closer_conn} {j}: the {streamer} was still sending (it never closes or half-closes by itself), but the {closer}'s side of the stream ended with {other:?} after {} bytes, before the {closer} closed its connection; {progress}", x.rx.len()),
+                false,
+            ),
         }
     }
 }
